@@ -261,8 +261,27 @@ struct Closer {
     got: Option<AnyBox>,
     is_close: bool,
     polled: bool,
-    waker: Arc<CountWaker>,
-    seen: usize,
+    // every waker this future has been given (op 13 adds one); the last is the current one
+    wakers: Vec<Arc<CountWaker>>,
+    // wake counts at the time of the last poll
+    seen: Vec<usize>,
+}
+
+impl Closer {
+    fn new(fut: Option<Fut>, got: Option<AnyBox>, is_close: bool) -> Self {
+        Closer {
+            fut,
+            got,
+            is_close,
+            polled: false,
+            wakers: vec![Arc::new(CountWaker(AtomicUsize::new(0)))],
+            seen: vec![0],
+        }
+    }
+
+    fn woken(&self, g: usize) -> bool {
+        self.wakers[g].0.load(Ordering::SeqCst) > self.seen[g]
+    }
 }
 
 enum Op {
@@ -287,14 +306,21 @@ fn noop_cx() -> (Arc<CountWaker>, Waker) {
 }
 
 impl<'a> World<'a> {
-    fn wmask(&self) -> u64 {
-        let mut m = 0u64;
+    /// (current waker woken since the last poll, an earlier waker woken since the last poll)
+    fn masks(&self) -> (u64, u64) {
+        let (mut m, mut st) = (0u64, 0u64);
         for (i, c) in self.closers.iter().enumerate() {
-            if c.fut.is_some() && c.waker.0.load(Ordering::SeqCst) > c.seen {
-                m |= 1 << i;
+            if c.fut.is_some() {
+                let cur = c.wakers.len() - 1;
+                if c.woken(cur) {
+                    m |= 1 << i;
+                }
+                if (0..cur).any(|g| c.woken(g)) {
+                    st |= 1 << i;
+                }
             }
         }
-        m
+        (m, st)
     }
 
     fn others(&self, me: usize) -> usize {
@@ -435,15 +461,7 @@ impl<'a> World<'a> {
                         None => panic!("close() on a bare SharedFd handle"),
                     }
                 };
-                let (a, _w) = noop_cx();
-                self.closers.push(Closer {
-                    fut: Some(fut),
-                    got: None,
-                    is_close: op == 6,
-                    polled: false,
-                    waker: a,
-                    seen: 0,
-                });
+                self.closers.push(Closer::new(Some(fut), None, op == 6));
                 (true, 0)
             }
             7 => {
@@ -453,9 +471,11 @@ impl<'a> World<'a> {
                 let Some(fut) = cl.fut.as_mut() else {
                     return (false, 0);
                 };
-                cl.seen = cl.waker.0.load(Ordering::SeqCst);
+                for g in 0..cl.wakers.len() {
+                    cl.seen[g] = cl.wakers[g].0.load(Ordering::SeqCst);
+                }
                 cl.polled = true;
-                let w = Waker::from(cl.waker.clone());
+                let w = Waker::from(cl.wakers.last().unwrap().clone());
                 let mut cx = Context::from_waker(&w);
                 let res = match fut {
                     Fut::Raw(f) => match f.as_mut().poll(&mut cx) {
@@ -495,15 +515,7 @@ impl<'a> World<'a> {
                 };
                 match h.try_unwrap() {
                     Ok(t) => {
-                        let (a, _w) = noop_cx();
-                        self.closers.push(Closer {
-                            fut: None,
-                            got: Some(t),
-                            is_close: false,
-                            polled: false,
-                            waker: a,
-                            seen: 0,
-                        });
+                        self.closers.push(Closer::new(None, Some(t), false));
                         (true, 1)
                     }
                     Err(h) => {
@@ -511,6 +523,18 @@ impl<'a> World<'a> {
                         (true, 0)
                     }
                 }
+            }
+            13 => {
+                // the future is polled with a fresh waker from now on (moved into another task)
+                let Some(cl) = self.closers.get_mut(c) else {
+                    return (false, 0);
+                };
+                if cl.fut.is_none() {
+                    return (false, 0);
+                }
+                cl.wakers.push(Arc::new(CountWaker(AtomicUsize::new(0))));
+                cl.seen.push(0);
+                (true, 0)
             }
             _ => (false, 0),
         }
@@ -524,7 +548,9 @@ impl<'a> World<'a> {
             out.push(ok as u64);
             out.push(self.id.open() as u64);
             out.push(res);
-            out.push(self.wmask());
+            let (m, st) = self.masks();
+            out.push(m);
+            out.push(st);
         }
         // drop everything that is left
         for cl in self.closers.iter_mut() {
@@ -565,7 +591,7 @@ fn valid_prog(prog: &[u64], rt: bool) -> bool {
     // try_unwrap (11) only on bare SharedFd programs: a failed try_unwrap hands back a SharedFd,
     // which has no close()
     prog.chunks(2).all(|c| {
-        matches!(c[0], 1 | 2 | 3 | 4 | 5 | 6 | 7 | 8 | 9 | 12) || (c[0] == 11 && !rt)
+        matches!(c[0], 1 | 2 | 3 | 4 | 5 | 6 | 7 | 8 | 9 | 12 | 13) || (c[0] == 11 && !rt)
     })
 }
 
@@ -762,6 +788,152 @@ fn run_kind3(drv: u64, prog: &[u64]) -> Result<Vec<u64>, BadCase> {
     out.push(extra_open(&baseline, &held));
     drop(listener);
     drop(clients);
+    Ok(out)
+}
+
+// ---------------------------------------------------------------------------
+// kind 5: multishot accept (TcpListener::incoming -> Incoming -> SubmitMulti<AcceptMulti>)
+//   ops: 1 poll_next once   2 drop the stream   3 a peer connects   4 driver turn
+//        5 drop the oldest delivered connection   6 drop the runtime (only after the stream)
+//   per step: ok unheld res     (res: poll 0 Pending, 1 a connection was delivered, 2 error/end)
+//   then, after the teardown (drop stream, two driver turns, drop delivered, drop runtime):
+//        unheld  peers_not_closed   (peers whose server side is still open: no EOF / reset seen)
+
+type IncStream = Pin<Box<dyn futures_util::Stream<Item = io::Result<compio_net::TcpStream>>>>;
+
+struct Inc {
+    // dropped before the listener it borrows
+    stream: Option<IncStream>,
+    listener: Box<compio_net::TcpListener>,
+}
+
+fn peer_open(c: &std::net::TcpStream) -> bool {
+    use std::io::Read;
+    c.set_nonblocking(true).ok();
+    let mut b = [0u8; 1];
+    match (&*c).read(&mut b) {
+        Ok(0) => false,
+        Ok(_) => true,
+        Err(e) if e.kind() == io::ErrorKind::WouldBlock => true,
+        Err(_) => false,
+    }
+}
+
+fn run_kind5(drv: u64, prog: &[u64]) -> Result<Vec<u64>, BadCase> {
+    use futures_util::Stream;
+    if drv > 1
+        || !prog.iter().all(|&o| (1..=6).contains(&o))
+        || prog.iter().filter(|&&o| o == 3).count() > 6
+    {
+        return Err(BadCase);
+    }
+    let mut rt = Some(mk_runtime(drv));
+    let listener = {
+        let l = std::net::TcpListener::bind("127.0.0.1:0").expect("bind");
+        rt.as_ref()
+            .unwrap()
+            .enter(|| compio_net::TcpListener::from_std(l).expect("from_std"))
+    };
+    let addr = listener.local_addr().expect("addr");
+    let baseline = open_fds();
+    let mut inc = Inc {
+        stream: None,
+        listener: Box::new(listener),
+    };
+    {
+        // SAFETY: the stream is dropped before the boxed listener (field order, and explicitly below)
+        let l: &'static compio_net::TcpListener = unsafe { &*(inc.listener.as_ref() as *const _) };
+        inc.stream = Some(Box::pin(l.incoming()));
+    }
+    let mut held: Vec<RawFd> = Vec::new();
+    let mut clients: Vec<std::net::TcpStream> = Vec::new();
+    let mut delivered: std::collections::VecDeque<compio_net::TcpStream> = Default::default();
+    // 0 never polled, 1 polled, 2 dropped
+    let mut state = 0u64;
+    let (_cw, w) = noop_cx();
+    let mut out = Vec::new();
+    for &op in prog {
+        let mut ok = true;
+        let mut res = 0u64;
+        match op {
+            1 => {
+                if rt.is_none() || state == 2 {
+                    ok = false;
+                } else {
+                    let r = rt.as_ref().unwrap();
+                    let mut cx = Context::from_waker(&w);
+                    let p = r.enter(|| inc.stream.as_mut().unwrap().as_mut().poll_next(&mut cx));
+                    state = 1;
+                    match p {
+                        Poll::Pending => {}
+                        Poll::Ready(Some(Ok(s))) => {
+                            held.push(s.as_raw_fd());
+                            delivered.push_back(s);
+                            res = 1;
+                        }
+                        Poll::Ready(_) => res = 2,
+                    }
+                }
+            }
+            2 => {
+                if state == 2 {
+                    ok = false;
+                } else {
+                    match rt.as_ref() {
+                        Some(r) => r.enter(|| inc.stream = None),
+                        None => inc.stream = None,
+                    }
+                    state = 2;
+                }
+            }
+            3 => {
+                let c = std::net::TcpStream::connect(addr).expect("connect");
+                held.push(c.as_raw_fd());
+                clients.push(c);
+            }
+            4 => match rt.as_ref() {
+                Some(r) => r.enter(|| drive(r, 0)),
+                None => ok = false,
+            },
+            5 => match delivered.pop_front() {
+                Some(s) => {
+                    held.retain(|&f| f != s.as_raw_fd());
+                    drop(s);
+                }
+                None => ok = false,
+            },
+            6 => {
+                if rt.is_none() || state == 1 {
+                    ok = false;
+                } else {
+                    drop(rt.take());
+                }
+            }
+            _ => unreachable!(),
+        }
+        out.push(ok as u64);
+        out.push(extra_open(&baseline, &held));
+        out.push(res);
+    }
+    match rt.as_ref() {
+        Some(r) => r.enter(|| inc.stream = None),
+        None => inc.stream = None,
+    }
+    if let Some(r) = rt.as_ref() {
+        r.enter(|| {
+            drive(r, 0);
+            drive(r, 0);
+        });
+    }
+    for s in delivered.drain(..) {
+        held.retain(|&f| f != s.as_raw_fd());
+        drop(s);
+    }
+    drop(rt);
+    out.push(extra_open(&baseline, &held));
+    // the listener goes: connections still in its backlog are reset
+    drop(inc);
+    out.push(clients.iter().filter(|c| peer_open(c)).count() as u64);
     Ok(out)
 }
 
@@ -1048,6 +1220,7 @@ fn run(case: &[u64]) -> Result<Vec<u64>, BadCase> {
         Some(2) if case.len() >= 3 => run_kind2(case[1], case[2], &case[3..]),
         Some(3) if case.len() >= 2 => run_kind3(case[1], &case[2..]),
         Some(4) if case.len() == 5 => run_kind4(case[1], case[2], case[3], case[4]),
+        Some(5) if case.len() >= 2 => run_kind5(case[1], &case[2..]),
         _ => Err(BadCase),
     }?;
     // every result line starts with `0 <kind>`
